@@ -797,3 +797,143 @@ def rule_pt1(ctx, rels):
                     "raises IndexError)", instance=inst)
     if n_f == 0:
         r.note("PT1", ",".join(rels), "", "no end-complement slicing in scope")
+
+
+# ---------------------------------------------------------------------------
+def rule_eig1(ctx):
+    r = ctx.r
+    r.rule("EIG1", "every eigen-decomposition of a stored (row-convention) "
+                   "transformation matrix is taken of its transpose "
+                   "(.swapaxes(-1,-2) / .T), so the eigenvectors returned "
+                   "are the fixed directions of the action on points; the "
+                   "four sites agree")
+    sites = [(HYP, "Hyperplane.from_reflection"),
+             (HYP, "Isometry._fixpoint_data"),
+             (PROJ, "Transformation.eigenvector"),
+             (PROJ, "Transformation.diagonalize")]
+    for rel, q in sites:
+        f = ctx.p.get_function(rel, q)
+        r.analysed(f)
+        defs = single_defs(f.node)
+        calls = [n for n in ast.walk(f.node) if isinstance(n, ast.Call)
+                 and dotted(n.func) in ("utils.eig", "np.linalg.eig")]
+        if not calls:
+            r.note("EIG1", loc(f, f.node), q, "no eig call; not judged")
+            continue
+        c = calls[0]
+        a = c.args[0]
+        exprs = [a]
+        if isinstance(a, ast.Name):
+            for n in ast.walk(f.node):
+                if isinstance(n, ast.Assign) and dotted(n.targets[0]) == a.id:
+                    exprs.append(n.value)
+        # in from_reflection the fallback `matrix = reflection` (raw ndarray
+        # argument, column convention by documentation) is not a stored matrix
+        stored = [e for e in exprs if any(
+            isinstance(x, ast.Attribute) and x.attr in ("matrix", "proj_data")
+            for x in ast.walk(e))]
+        if not stored:
+            r.note("EIG1", loc(f, c), dotted(c)[:80],
+                   "argument is not a stored matrix; not judged")
+            continue
+        e = stored[0]
+        t = 0
+        cur = e
+        while True:
+            if isinstance(cur, ast.Attribute) and cur.attr == "T":
+                t += 1
+                cur = cur.value
+            elif isinstance(cur, ast.Call) and isinstance(cur.func, ast.Attribute) \
+                    and cur.func.attr == "swapaxes":
+                t += 1
+                cur = cur.func.value
+            elif isinstance(cur, ast.Call) and dotted(cur.func) in (
+                    "np.swapaxes", "np.transpose") and cur.args:
+                t += 1
+                cur = cur.args[0]
+            else:
+                break
+        inst = f"{q}:eig"
+        if t % 2 == 1:
+            r.ok("EIG1", inst, loc(f, c), dotted(e)[:80],
+                 "eigenvectors of the transposed (column-convention) matrix")
+        else:
+            r.violation(
+                "EIG1", f"{f.fq}|eig", loc(f, c), dotted(e)[:120],
+                f"eig is applied to `{dotted(e)[:60]}` without transposing "
+                "the stored row matrix: the vectors returned are left "
+                "eigenvectors, which for a non-symmetric matrix are not the "
+                "points fixed by the transformation (fixed points, axes, "
+                "walls and diagonalising frames come out wrong)",
+                instance=inst)
+
+
+def rule_ref1(ctx):
+    r = ctx.r
+    r.rule("REF1", "Subspace.reflection_across conjugates the form by the "
+                   "adapted basis as B^-1 @ J @ B (outer factors mutually "
+                   "inverse, J = self.minkowski) and wraps the result in "
+                   "the row convention")
+    f = ctx.p.get_function(HYP, "Subspace.reflection_across")
+    r.analysed(f)
+    prod = None
+    for n in ast.walk(f.node):
+        if isinstance(n, ast.Assign) and isinstance(n.value, ast.BinOp) \
+                and isinstance(n.value.op, ast.MatMult):
+            prod = n
+    if prod is None:
+        r.note("REF1", loc(f, f.node), "reflection_across",
+               "product idiom not recognised; not judged")
+        return
+    parts = []
+
+    def flat(x):
+        if isinstance(x, ast.BinOp) and isinstance(x.op, ast.MatMult):
+            flat(x.left)
+            flat(x.right)
+        else:
+            parts.append(x)
+    flat(prod.value)
+    ok = False
+    if len(parts) == 3:
+        a, j, b = parts
+        inv_a = isinstance(a, ast.Call) and dotted(a.func) in (
+            "utils.invert", "np.linalg.inv") and a.args \
+            and dotted(a.args[0]) == dotted(b)
+        inv_b = isinstance(b, ast.Call) and dotted(b.func) in (
+            "utils.invert", "np.linalg.inv") and b.args \
+            and dotted(b.args[0]) == dotted(a)
+        ok = (inv_a or inv_b) and dotted(j) == "self.minkowski"
+        order_ok = inv_a
+    if ok and order_ok:
+        r.ok("REF1", "reflection_across", loc(f, prod), norm_stmt(prod)[:100],
+             "invert(B) @ J @ B")
+    elif ok:
+        r.violation("REF1", f"{f.fq}|order", loc(f, prod),
+                    norm_stmt(prod)[:140],
+                    "the conjugation is B @ J @ B^-1; with the rows of B "
+                    "spanning the hyperplane the row-convention reflection "
+                    "is B^-1 @ J @ B", instance="reflection_across")
+    else:
+        r.violation("REF1", f"{f.fq}|conjugation", loc(f, prod),
+                    norm_stmt(prod)[:140],
+                    "the reflection is not the conjugate invert(B) @ "
+                    "self.minkowski @ B of the form by the adapted basis: it "
+                    "is not an involution fixing the hyperplane",
+                    instance="reflection_across")
+    rets = [n for n in ast.walk(f.node) if isinstance(n, ast.Return)
+            and isinstance(n.value, ast.Call)
+            and dotted(n.value.func) == "Isometry"]
+    if rets:
+        cv = None
+        for k in rets[0].value.keywords:
+            if k.arg == "column_vectors":
+                cv = const_value(k.value, "?")
+        if cv in (None, False):
+            r.ok("REF1", "reflection_across:convention", loc(f, rets[0]),
+                 norm_stmt(rets[0]), "row convention")
+        else:
+            r.violation("REF1", f"{f.fq}|convention", loc(f, rets[0]),
+                        norm_stmt(rets[0]),
+                        "the conjugate is a row matrix but is wrapped with "
+                        f"column_vectors={cv}", instance="reflection_across")
